@@ -173,4 +173,17 @@ example : extractWithLimit (some [52]) 3 [.data [1]] = .sizeLimit := by decide
 example : extractWithLimit (some [120]) 3 [.data [1, 2], .data [3, 4]] = .sizeLimit := by decide
 example : extractWithLimit none 3 [.data [1], .err] = .bufferErr := by decide
 
+/-! ### the public entry point -/
+
+/-- **C14 for `BufferedBody::extract`**: with `BodySizeLimit::Enabled { max_size: N }` the public extractor hands the
+    application at most `N` bytes, identical to what the client sent, or fails — whatever headers the request carries (none
+    at all included: an HTTP/2 request may stream a body that no header announces) and however the body is framed. -/
+theorem extract_enabled_bounded (hdr : Option (List Nat)) (N : Nat) (fs : List Frame) (b : List Nat)
+    (h : extract hdr (.enabled N) fs = .ok b) : b = dataJoin fs ∧ b.length ≤ N :=
+  ⟨(ok_bounded hdr N fs b h).1, (ok_bounded hdr N fs b h).2.1⟩
+
+-- the seeded variant (no Content-Length ⇒ no limit) hands 3 bytes to an application that allowed 2
+example : extractSkipUnannounced none (.enabled 2) [.data [1, 2], .data [3]] = .ok [1, 2, 3] ∧
+    extract none (.enabled 2) [.data [1, 2], .data [3]] = .sizeLimit := by decide
+
 end Pxv.Body
